@@ -165,7 +165,9 @@ func (t *Collection) Get(key []byte) (val []byte, err error) {
 		return nil, err
 	}
 	if i != nil {
-		return i.Val, nil
+		val = i.Val
+		t.store.ItemDecRef(t, i) // Release the reference from GetItem().
+		return val, nil
 	}
 	return nil, nil
 }
@@ -178,7 +180,11 @@ func (t *Collection) ExistAny(key interface{}) bool {
 // Exist returns true if the key exists in the collection
 func (t *Collection) Exist(key []byte) bool {
 	val, _ := t.GetItem(key, false)
-	return val != nil
+	if val != nil {
+		t.store.ItemDecRef(t, val) // Release the reference from GetItem().
+		return true
+	}
+	return false
 }
 
 // SetItem in a collection
